@@ -101,8 +101,12 @@ structure St where
   tx : Bool
   p : Pipe
   labels : List Nat
+  /-- result slices returned by the Execs of this episode, as the model returned them … -/
+  held : List (List Cmder) := []
+  /-- … and as the specification says they are (that batch's commands in queue order with their replies) -/
+  heldSpec : List (List Cmder) := []
 
-def St.init : St := ⟨false, Pipe.empty, []⟩
+def St.init : St := { tx := false, p := Pipe.empty, labels := [] }
 
 /-- the hand table of the e2e kinds: how the real method behaves (model) -/
 def kindCall (kind : String) (n : Nat) : Option Call :=
@@ -180,15 +184,15 @@ def splitBar (ws : List String) : List String × Option String :=
 
 def step (s : St) (ws : List String) : St × String :=
   match ws with
-  | ["reset", m] => (⟨m == "tx", Pipe.empty, []⟩, "ok")
+  | ["reset", m] => ({ tx := m == "tx", p := Pipe.empty, labels := [] }, "ok")
   | "q" :: kind :: lab :: rest =>
     let n := (rest.head?.bind String.toNat?).getD 0
     match lab.toNat?, kindCall kind n with
     | some l, some c =>
       let p := s.p.call l c
-      (⟨s.tx, p, if kindAccepted kind n then s.labels ++ [l] else s.labels⟩, "len=" ++ toString p.len)
+      ({ s with p := p, labels := if kindAccepted kind n then s.labels ++ [l] else s.labels }, "len=" ++ toString p.len)
     | _, _ => (s, "bad-op")
-  | ["discard"] => (⟨s.tx, s.p.discard, []⟩, "len=" ++ toString s.p.discard.len)
+  | ["discard"] => ({ s with p := s.p.discard, labels := [] }, "len=" ++ toString s.p.discard.len)
   | ["len"] => (s, "len=" ++ toString s.p.len)
   | "exec" :: rest =>
     if s.tx then
@@ -199,7 +203,13 @@ def step (s : St) (ws : List String) : St × String :=
         let ans := match out.result with
           | none => "panic len=" ++ toString p'.len
           | some (rets, err) => outStr out.sent rets err out.sent.isNone p'.len
-        (⟨s.tx, p', if out.sent.isSome then [] else s.labels⟩, ans)
+        let got := match out.result with | some (rets, _) => rets | none => []
+        let spec := match e with
+          | .arr xs => if xs.length == s.labels.length && q.all (fun r => (nonRedis r).isNone) then (Spec.txExecArr s.labels xs).2.1 else got
+          | .msg .nil => (Spec.txExecNil s.labels).2.1
+          | _ => got
+        ({ s with p := p', labels := if out.sent.isSome then [] else s.labels,
+                  held := s.held ++ [got], heldSpec := s.heldSpec ++ [spec] }, ans)
       | _, _ => (s, "bad-op")
     else
       match parseReplies rest s.p.cmds.length (tagAt s.p.cmds) with
@@ -208,7 +218,10 @@ def step (s : St) (ws : List String) : St × String :=
         let ans := match out.result with
           | none => "panic len=" ++ toString p'.len
           | some (rets, err) => outStr out.sent rets err out.sent.isNone p'.len
-        (⟨s.tx, p', if out.sent.isSome then [] else s.labels⟩, ans)
+        let got := match out.result with | some (rets, _) => rets | none => []
+        let spec := if r.length == s.labels.length then (Spec.exec s.labels r).2.1 else got
+        ({ s with p := p', labels := if out.sent.isSome then [] else s.labels,
+                  held := s.held ++ [got], heldSpec := s.heldSpec ++ [spec] }, ans)
       | none => (s, "bad-op")
   | "!exec" :: rest =>
     -- oracle line: the property itself, from the plain list of accepted labels
@@ -219,13 +232,23 @@ def step (s : St) (ws : List String) : St × String :=
     if s.tx then
       let (_, ex) := splitBar rest
       match parseExec (ex.getD "n") tag with
-      | some (.arr xs) => (⟨s.tx, Pipe.empty, []⟩, fin (Spec.txExecArr labels xs))
-      | some (.msg .nil) => (⟨s.tx, Pipe.empty, []⟩, fin (Spec.txExecNil labels))
+      | some (.arr xs) => ({ s with p := Pipe.empty, labels := [] }, fin (Spec.txExecArr labels xs))
+      | some (.msg .nil) => ({ s with p := Pipe.empty, labels := [] }, fin (Spec.txExecNil labels))
       | _ => (s, "bad-op")
     else
       match parseReplies rest labels.length tag with
-      | some r => (⟨s.tx, Pipe.empty, []⟩, fin (Spec.exec labels r))
+      | some r => ({ s with p := Pipe.empty, labels := [] }, fin (Spec.exec labels r))
       | none => (s, "bad-op")
+  -- the slice returned by the k-th Exec of the episode, looked at again now: Exec hands out the old
+  -- `c.rets` and resets the queue to nil, so later batches get a fresh backing array and cannot touch it
+  | ["held", k] =>
+    (s, match k.toNat?.bind (s.held[·]?) with
+      | some rets => "rets=" ++ (if rets.isEmpty then "-" else ";".intercalate (rets.map fun c => toString c.id ++ ":" ++ stStr false c.st))
+      | none => "bad-op")
+  | ["!held", k] =>  -- oracle: still exactly that batch's commands, in queue order, with that batch's replies
+    (s, match k.toNat?.bind (s.heldSpec[·]?) with
+      | some rets => "rets=" ++ (if rets.isEmpty then "-" else ";".intercalate (rets.map fun c => toString c.id ++ ":" ++ stStr true c.st))
+      | none => "bad-op")
   -- suite pipeq
   | ["methods"] => (s, toString Rv.Gen.Compat.rows.length)
   | ["kind", m] =>
